@@ -652,6 +652,28 @@ func (env *SpecEnv) callExpr(n *ast.CallExpr) Val {
 			case "cap":
 				v := env.eval(n.Args[0])
 				return scalar(types.Typ[types.Int], v.L[3])
+			case "sliceoff":
+				v := env.eval(n.Args[0])
+				return scalar(types.Typ[types.Int], v.L[1])
+			case "elems":
+				// the backing array of a slice as an array value (struct-of-arrays view), indexed
+				// from the start of the backing store (add sliceoff for slices that were re-sliced)
+				v := env.eval(n.Args[0])
+				st, ok := v.Typ.Underlying().(*types.Slice)
+				if !ok {
+					env.fail("elems of %s", v.Typ)
+				}
+				out := Val{Typ: types.NewArray(st.Elem(), 1<<40)}
+				for _, l := range leavesOf(st.Elem()) {
+					key := "[]" + typeKey(st.Elem()) + l.Path
+					full := arraySort(bvSort(64), l.Sort)
+					cur := c.cell(env.cells, key, arraySort(sortRef, full))
+					out.L = append(out.L, c.sel(cur, v.L[0]))
+				}
+				return out
+			case "isnil":
+				v := env.eval(n.Args[0])
+				return scalar(boolT, e.ptrEq(v, scalar(types.Typ[types.UntypedNil], tNil)))
 			case "popcount":
 				v := env.eval(n.Args[0])
 				return scalar(types.Typ[types.Int], e.popcount(v.T()))
